@@ -3,18 +3,22 @@ from checks import collection_common as cc
 
 PROP = "C01"
 ALL = ["add", "add", "update", "remove", "flush", "ext", "compact", "reopen"]
+FLT = ["add", "add", "update", "update", "remove", "flush"]
 
 
 def run(tier):
     if tier == "quick":
-        mc = ["MC_Collection_quick.cfg", "MC_Collection_idx.cfg"]
+        mc = ["MC_Collection_quick.cfg", "MC_Collection_idx.cfg", "MC_Collection_fault.cfg"]
         plan = [("crud", 5, 8, ALL, "crash", 0.2),
+                ("crud", 3, 8, FLT, "fault", 0.2),
                 ("idxlife", 2, 6, ["add", "update", "flush", "reopen", "ext"], "crash", 0.1),
                 ("crud", 0, 0, ALL, "nested", 0.2),
                 ("wm", 0, 0, ALL, "crash", 0.0)]
     else:
-        mc = ["MC_Collection_thorough.cfg", "MC_Collection_idx.cfg", "MC_Collection_c02.cfg"]
+        mc = ["MC_Collection_thorough.cfg", "MC_Collection_idx.cfg", "MC_Collection_c02.cfg", "MC_Collection_fault.cfg"]
         plan = [("crud", 60, 12, ALL, "crash", 0.2),
+                ("crud", 40, 10, FLT, "fault", 0.2),
+                ("unique", 10, 8, FLT, "fault", 0.3),
                 ("idxlife", 20, 8, ["add", "update", "remove", "flush", "reopen", "ext"], "crash", 0.1),
                 ("backfill", 20, 8, ALL, "crash", 0.2),
                 ("crud", 6, 7, ALL, "nested", 0.2),
@@ -27,11 +31,18 @@ def run(tier):
         "evaluated in each. T: one trace per (workload, crash point k) and (workload, k, nested crash point j); "
         "distinct_nontrivial counts the distinct crash points explored on the real code plus one clean run per "
         "workload group; every trace line is matched to a spec action with its logged fields and all invariants "
-        "are evaluated after every line",
+        "are evaluated after every line. Fault tier (mode fault): a storage fault - an error returned with the "
+        "mutation applied or not - on EVERY backend mutation of add/update/remove/flush workloads; the handle must "
+        "either stay healthy with the operation undone (watermark put, document create + compensating delete, intent "
+        "put: actions AddWmFail / AddDocFail / AddCompDelete / IntentFail, model-checked in MC_Collection_fault.cfg) or "
+        "report itself poisoned, which the specification treats as Crash: it then refuses every call, writes nothing, "
+        "and the SAME database reopens the collection (recovery) before the workload continues",
         ["backend = TraceStore(InMemory); MetaStore/EncryptedStore backends are covered by C07/C08 refinement",
          "each object-store mutation is atomic (the crash model of the property)",
          "B-tree/BM25 index flush is an atomic snapshot commit at its manifest write (discharged by C10/C11)",
-         "crash inside collection *creation* is not enumerated here"])
+         "crash inside collection *creation* is not enumerated here",
+         "faults are injected into add / update / remove / flush; save_extension, compaction, open and close are not "
+         "faulted (a failed save_extension leaves the handle healthy with a stale metadata version: not modelled)"])
 
 
 def replay(payload):
